@@ -61,8 +61,8 @@ def main(argv=None):
         ctx.cleanup()
     wall = time.time() - t0
     if col.errors:
-        for e in col.errors[:5]:
-            print("HARNESS-ERROR:", e)
+        print(f"HARNESS-ERROR: {len(col.errors)} task(s) failed; first:")
+        print(col.errors[0][-3000:])
         runner.write_evidence(ctx, mod, col, wall, 0, {'harness_errors': len(col.errors)})
         return 2
 
